@@ -9,7 +9,7 @@
 \*   FIXED = {"unban","unbl","order"} (code with patches C18-1..3): BanHolds strict, BlacklistHoldsOrKnown.
 \*   FIXED = {"unban","unbl","order","shadow"} (repaired design): INVS strict, plus NoDeviation.
 CONSTANTS
-  IPs = {"a"}
+  IPs = @@IPS@@
   Procs = @@PROCS@@
   Threshold = @@THR@@
   PermAt = @@PERMAT@@
